@@ -79,6 +79,11 @@ def run(cut, tree, argv, stdin=b"", tty=None, uid=0, env=None, timeout=8, strace
     root = os.path.join(top, "w")
     tmpd = os.path.join(top, "tmp")
     os.makedirs(root); os.makedirs(tmpd)
+    if any(b"@ROOT@" in a for a in argv) or any(n[0] == "f" and b"@ROOT@" in n[1] for n in tree.values()):
+        # absolute paths: the token stands for the scratch directory the tree lives in
+        rb_ = root.encode()
+        argv = [a.replace(b"@ROOT@", rb_) for a in argv]
+        tree = Tree({k: (("f", n[1].replace(b"@ROOT@", rb_), n[2]) if n[0] == "f" else n) for k, n in tree.items()})
     materialize(root, tree)
     os.chmod(top, 0o755)
     if uid != 0:
